@@ -107,6 +107,18 @@ def _check(desc, tier, V, st):
         integrals_ok(':after-weights')
         if call == 1:
             held = w          # the caller keeps the array it was given (no copy)
+    # an interpolator built for complex data has the same (real) weights - negative ones included
+    if not S.per:
+        try:
+            st['evals'] += 1
+            if nontriv:
+                st['nontrivial'] += 1
+            wc = np.asarray(SplineInterpolator1D(bs, dtype=complex).get_quadrature_coefficients())
+            if wc.shape != (n,) or not (np.abs(wc - wex).max() <= tolW):
+                V('weights:%s:complex-interpolator' % cls, '%s: weights of a dtype=complex interpolator off by %.3g (smallest exact weight %.3g)' % (
+                    key, np.abs(wc - wex).max() if wc.shape == (n,) else float('nan'), wex.min()))
+        except Exception as e:  # noqa
+            V('weights-exception:%s:%s' % (cls, type(e).__name__), '%s: complex interpolator: %s: %s' % (key, type(e).__name__, e))
     # the interpolator is used for interpolation afterwards: the weights handed out before must still be the weights
     try:
         from pygyro.splines.splines import Spline1D
